@@ -8017,6 +8017,10 @@ type imageCoordinates struct {
 	valueID uint32
 	typeID  uint32
 	size    int // 0 for scalar, 2/3/4 for vector
+	// componentTypeID is the scalar type of one component (i32 or u32, as the
+	// WGSL coordinate was written): constants composed into a vector of typeID
+	// must have this type.
+	componentTypeID uint32
 }
 
 // emitImageCoordinates builds a SPIR-V coordinate vector, combining coordinates
@@ -8043,10 +8047,15 @@ func (e *ExpressionEmitter) emitImageCoordinates(
 			return imageCoordinates{}, err
 		}
 		size := 0
+		componentTypeID := typeID
 		if vec, ok := coordInner.(ir.VectorType); ok {
 			size = int(vec.Size)
+			componentTypeID, err = e.backend.emitScalarType(vec.Scalar)
+			if err != nil {
+				return imageCoordinates{}, err
+			}
 		}
-		return imageCoordinates{valueID: coordID, typeID: typeID, size: size}, nil
+		return imageCoordinates{valueID: coordID, typeID: typeID, size: size, componentTypeID: componentTypeID}, nil
 	}
 
 	arrayIndexID, err := e.emitExpression(*arrayIndex)
@@ -8104,7 +8113,7 @@ func (e *ExpressionEmitter) emitImageCoordinates(
 	ib.AddWord(arrayIndexID)
 	e.backend.builder.funcAppend(ib.Build(OpCompositeConstruct))
 
-	return imageCoordinates{valueID: combinedID, typeID: combinedTypeID, size: newSize}, nil
+	return imageCoordinates{valueID: combinedID, typeID: combinedTypeID, size: newSize, componentTypeID: scalarTypeID}, nil
 }
 
 // emitImageFetchOrRead emits the actual image access instruction.
@@ -8337,9 +8346,12 @@ func (e *ExpressionEmitter) emitImageLoadRestrict(
 	if coords.size == 0 {
 		onesID = oneID
 	} else {
+		// The constituents of a constant composite must have the component
+		// type of the vector: u32 coordinates need a u32 one.
+		componentOneID := e.backend.builder.AddConstant(coords.componentTypeID, 1)
 		ones := make([]uint32, coords.size)
 		for i := range ones {
-			ones[i] = oneID
+			ones[i] = componentOneID
 		}
 		onesID = e.backend.builder.AddConstantComposite(coords.typeID, ones...)
 	}
